@@ -358,6 +358,65 @@ def run_restest_multi(ctx, n, d):
             ctx.traces += 1
 
 
+def final_tree_of(outdir):
+    """the tree of the LAST repair command of run 1 (numeric order), read from the tester's output folder"""
+    import re
+    r1 = os.path.join(outdir, 'run1')
+    reps = sorted((int(m.group(1)), n) for n in (os.listdir(r1) if os.path.isdir(r1) else []) for m in [re.match(r'repair(\d+)$', n)] if m)
+    if not reps:
+        return None
+    out = {}
+    top = os.path.join(r1, reps[-1][1])
+    for dp, _, fs in os.walk(top):
+        for fn in fs:
+            p = os.path.join(dp, fn)
+            out[os.path.relpath(p, top).replace(os.sep, '/')] = open(p, 'rb').read()
+    return out
+
+
+def run_restest_cfg(ctx, d):
+    """Shapes of the configuration file: (a) a repair stage of eleven commands, the last of which spoils one file (the final tree is
+    the tree of the LAST command, the eleventh, not the tenth); (b) a before_tamper command that writes through {inputdir} (the
+    reference of every metric is the -i tree as it is when the run ends).  Property predicate only: exit 0 <=> the final tree read
+    from the output folder is identical to the -i tree."""
+    import pyFileFixity.resiliency_tester as rt
+    ref = {'a.bin': bytes(range(200)), 'sub/b.txt': b'hello world\n' * 10, 'MANIFEST.txt': b'one\n'}
+    scen = []
+    good = 'cp -r "{inputdir}"/. "{outputdir}"/'
+    eleven = ''.join('    %s\n' % good for _ in range(10)) + '    sh -c \'cp -r "{inputdir}"/. "{outputdir}"/ && printf X >> "{outputdir}/sub/b.txt"\'\n'
+    scen.append(('eleven repair commands, the last one spoils a file', 'before_tamper:\n    true\ntamper:\n    true\nafter_tamper:\n    true\nrepair:\n' + eleven, False))
+    scen.append(('eleven repair commands, all good', 'before_tamper:\n    true\ntamper:\n    true\nafter_tamper:\n    true\nrepair:\n' + ''.join('    %s\n' % good for _ in range(11)), True))
+    scen.append(('before_tamper appends to a file of {inputdir}', 'before_tamper:\n    sh -c \'printf two >> "{inputdir}/MANIFEST.txt"\'\ntamper:\n    true\nafter_tamper:\n    true\nrepair:\n    %s\n' % good, None))
+    for k, (name, cfg, _) in enumerate(scen):
+        t = os.path.join(d, 'cfg%d' % k); os.makedirs(t)
+        orig = os.path.join(t, 'orig'); os.makedirs(orig)
+        write_tree(orig, ref)
+        open(os.path.join(t, 'cfg'), 'w').write(cfg)
+        buf = io.StringIO()
+        try:
+            with contextlib.redirect_stdout(buf), contextlib.redirect_stderr(buf):
+                rc = rt.main(['-i', orig, '-o', os.path.join(t, 'out'), '-c', os.path.join(t, 'cfg'), '--silent', '-f'])
+        except BaseException as e:
+            rc = 'EXC ' + repr(e)
+        fin = final_tree_of(os.path.join(t, 'out'))
+        now = {}
+        for dp, _, fs in os.walk(orig):
+            for fn in fs:
+                p = os.path.join(dp, fn)
+                now[os.path.relpath(p, orig).replace(os.sep, '/')] = open(p, 'rb').read()
+        shutil.rmtree(t, ignore_errors=True)
+        identical = fin is not None and all(fin.get(p) == c for p, c in now.items())
+        ctx.evaluations += 1
+        ctx.count('restest_config_shapes')
+        ctx.nontriv(('restest-cfg', name))
+        case = {'kind': 'restest-cfg', 'scenario': name}
+        if not isinstance(rc, int) or (rc == 0) != identical:
+            ctx.fail(case, {'exit': rc, 'final_tree_identical_to_input_tree': identical,
+                            'differing': None if fin is None else sorted(p for p, c in now.items() if fin.get(p) != c)})
+        else:
+            ctx.traces += 1
+
+
 def run(ctx):
     from props import cli_proc
     cli_proc.stream(ctx, ['C20', 'C20@restest'])
@@ -397,6 +456,7 @@ def run(ctx):
         run_restest_multi(ctx, 8 if ctx.tier == 'quick' else 80, d)
         run_restest_big(ctx, d)
         run_restest_counts(ctx, d)
+        run_restest_cfg(ctx, d)
     finally:
         shutil.rmtree(d, ignore_errors=True)
 
